@@ -74,7 +74,7 @@ def rows(rng, T, dim, lim=8, maxpow=2):
     return [[core.dyadic(rng, lim, maxpow) for _ in range(dim)] for _ in range(T)]
 
 
-def gen_readout(rng, i):
+def gen_readout(rng, i, model=False):
     rule = ["rls", "lms"][i % 2]
     cls = "FORCE" if rng.random() < 0.25 else rule.upper()
     idim, odim = rng.randint(1, 3), rng.randint(1, 2)
@@ -98,14 +98,35 @@ def gen_readout(rng, i):
             calls.insert(pos, bad)
             nfail += 1
     c = {"kind": rule, "cls": cls, "bias": rng.random() < 0.6, "idim": idim, "odim": odim, "k": k, "calls": calls}
+    # Model-level histories: (Input | Reservoir) >> readout trained with successive Model.train calls; learn_every > 1,
+    # call lengths not multiples of learn_every and one-timestep calls (the gate restarts at every call)
+    if model:
+        nfail = 0
+        c["k"] = k = rng.choice([2, 2, 3, 3, 4])
+        ncalls = rng.choice([2, 2, 3, 4])
+        lens = [rng.choice([1, 1] + [t for t in range(2, 8) if t % k != 0]) for _ in range(ncalls)]
+        c["calls"] = [{"X": rows(rng, T, idim, xl, 2), "Y": rows(rng, T, odim, 4, 2)} for T in lens]
+        if rng.random() < 0.5:
+            c["model"] = {"feat": "input"}
+        else:
+            units = rng.randint(1, 3)
+            c["model"] = {"feat": "reservoir", "units": units, "W": rows(rng, units, units, 4, 2), "Win": rows(rng, units, idim, 4, 2),
+                          "rbias": [core.dyadic(rng, 4, 2) for _ in range(units)], "lr": rng.choice([Fraction(1), Fraction(1, 2), Fraction(3, 4)])}
+    # a hyper-parameter changed between construction and first use (template.copy() + set_param in a sweep, attribute
+    # assignment, hypers dict): the value held at first use is the one that counts.  RLS / FORCE(rls): alpha.
+    # LMS / FORCE(lms): HEAD builds the rate generator at construction, so only a replaced _alpha_gen is demanded.
+    if rng.random() < 0.3:
+        c["preset"] = {"how": rng.choice(["attr", "set_param", "hypers", "copy+set_param", "copy+attr"]) if rule == "rls"
+                       else rng.choice(["set_param", "copy+set_param"]),
+                       "ctor": rng.choice([Fraction(1, 8), Fraction(8), Fraction(16), Fraction(3)])}
     if rule == "rls":
         c["alpha"] = rng.choice([Fraction(1, 4), Fraction(1, 2), Fraction(1), Fraction(2), Fraction(4), Fraction(3, 4)])
     else:
         rate = lambda: rng.choice([Fraction(1, 8), Fraction(1, 16), Fraction(1, 32), Fraction(3, 32), Fraction(1, 64)])
-        if nfail or rng.random() < 0.6:
+        if nfail or c.get("preset") or rng.random() < 0.6:
             # explicit schedule (passed as an iterator), consecutive entries distinct so that a shifted cursor shows
             sch = []
-            while len(sch) < sum(lens) + 3 * nfail + 2:
+            while len(sch) < sum(len(cl["X"]) for cl in c["calls"]) + 3 * nfail + 2:
                 v = rate()
                 if not sch or v != sch[-1]:
                     sch.append(v)
@@ -135,7 +156,7 @@ def gen_ip(rng, i):
 def gen_cases(rng, n):
     out = []
     for i in range(n):
-        out.append(gen_ip(rng, i) if i % 4 == 3 else gen_readout(rng, i))
+        out.append(gen_ip(rng, i) if i % 4 == 3 else gen_readout(rng, i, model=(i % 8 in (5, 6))))
     return out
 
 
@@ -152,18 +173,72 @@ def make_readout(c, schedule_as="iterator"):
             alpha_arg = [float(Fraction(v)) for v in alpha]
     else:
         alpha_arg = float(Fraction(alpha))
-    if c["cls"] == "FORCE":
-        with warnings.catch_warnings():
-            warnings.simplefilter("ignore")
-            node = FORCE(alpha=alpha_arg, rule=c["kind"], input_bias=c["bias"], name=uname("force"))
-    elif c["cls"] == "RLS":
-        node = RLS(alpha=alpha_arg, input_bias=c["bias"], name=uname("rls"))
-    else:
-        node = LMS(alpha=alpha_arg, input_bias=c["bias"], name=uname("lms"))
+    pre = c.get("preset")
+    final_arg = alpha_arg
+    if pre:                               # constructed with another value, changed before first use
+        alpha_arg = ff(pre["ctor"])
+
+    def build(a, nm):
+        if c["cls"] == "FORCE":
+            with warnings.catch_warnings():
+                warnings.simplefilter("ignore")
+                return FORCE(alpha=a, rule=c["kind"], input_bias=c["bias"], name=uname("force" + nm))
+        if c["cls"] == "RLS":
+            return RLS(alpha=a, input_bias=c["bias"], name=uname("rls" + nm))
+        return LMS(alpha=a, input_bias=c["bias"], name=uname("lms" + nm))
+    node = build(alpha_arg, "")
+    if pre:
+        how = pre["how"]
+        if how.startswith("copy+"):
+            node = node.copy(name=uname("swept"))
+            how = how[5:]
+        if c["kind"] == "rls":
+            if how == "attr":
+                node.alpha = final_arg
+            elif how == "set_param":
+                node.set_param("alpha", final_arg)
+            else:
+                node.hypers["alpha"] = final_arg
+        else:
+            node.set_param("_alpha_gen", final_arg if counter is not None else iter(final_arg))
     return node, counter
 
 
+def make_model(c, node):
+    from reservoirpy.nodes import Input, Reservoir
+    m = c["model"]
+    if m["feat"] == "input":
+        feat = Input(name=uname("src"))
+    else:
+        feat = Reservoir(m["units"], lr=ff(m["lr"]), W=farr(m["W"]), Win=farr(m["Win"]), bias=farr([[v] for v in m["rbias"]]),
+                         activation=lambda x: np.clip(x, -1, 1), name=uname("res"))
+    return feat, feat >> node
+
+
+def run_model(c):
+    node, counter = make_readout(c)
+    feat, model = make_model(c, node)
+    obs = []
+    for call in c["calls"]:
+        st = model.train(farr(call["X"]), farr(call["Y"]), learn_every=c["k"], return_states="all")
+        obs.append({"raised": None, "feat": np.asarray(st[feat.name]).tolist(), "out": np.asarray(st[node.name]).tolist(),
+                    "W": np.asarray(node.Wout).tolist(), "b": np.asarray(node.bias).ravel().tolist(),
+                    "P": np.asarray(node.P).tolist() if c["kind"] == "rls" else [],
+                    "cur": counter.n if counter is not None else None})
+    return {"calls": obs}
+
+
+def eff(c, o):
+    """The (x, y) samples the readout saw: the scenario's for a node, the observed feature-node states for a Model."""
+    if not c.get("model"):
+        return c["calls"], c["idim"]
+    calls = [{"X": ob["feat"], "Y": call["Y"]} for call, ob in zip(c["calls"], o["calls"])]
+    return calls, (c["idim"] if c["model"]["feat"] == "input" else c["model"]["units"])
+
+
 def run_readout(c):
+    if c.get("model"):
+        return run_model(c)
     node, counter = make_readout(c)
     obs = []
     for call in c["calls"]:
@@ -228,14 +303,15 @@ def to_coq(c, o):
     if c["kind"] in ("rls", "lms"):
         if any(call.get("fail") and ob["raised"] is None for call, ob in zip(c["calls"], o["calls"])):
             return "true"      # an invalid call was accepted: nothing is stated about what it does (not counted as non-trivial)
-        calls = coqlist([qcall(call) for call in c["calls"]])
+        ecalls, eidim = eff(c, o)
+        calls = coqlist([qcall(call) for call in ecalls])
         os_ = coqlist(["{| o_out := %s; o_W := %s; o_b := %s; o_P := %s; o_cur := %s |}" %
                        (qmat(ob["out"]), qmat(ob["W"]), qvec(ob["b"]), qmat(ob["P"]),
                         "None" if ob["cur"] is None else "(Some %s)" % nat(ob["cur"])) for ob in o["calls"]])
         if c["kind"] == "rls":
-            return "chk_rls %s %s %s %s %s %s %s" % (coqbool(c["bias"]), nat(c["idim"]), nat(c["odim"]), q(c["alpha"]), nat(c["k"]), calls, os_)
+            return "chk_rls %s %s %s %s %s %s %s" % (coqbool(c["bias"]), nat(eidim), nat(c["odim"]), q(c["alpha"]), nat(c["k"]), calls, os_)
         sc = "(%s, 0)" % qvec(c["alpha"]) if isinstance(c["alpha"], list) else "([], %s)" % q(c["alpha"])
-        return "chk_lms %s %s %s %s %s %s %s" % (sc, coqbool(c["bias"]), nat(c["idim"]), nat(c["odim"]), nat(c["k"]), calls, os_)
+        return "chk_lms %s %s %s %s %s %s %s" % (sc, coqbool(c["bias"]), nat(eidim), nat(c["odim"]), nat(c["k"]), calls, os_)
     recs = o["rec"]
     nwarm = c["warmup"] * len(c["seqs"])
     items = []
@@ -282,7 +358,9 @@ def correspondence(ctx):
             continue
         keep.append({"scenario": jsonable(c), "observed": jsonable(o)})
         tag = "ip/%s/mu%s0" % (c["activation"], "!=" if c["mu"] != 0 else "=") if c["kind"] == "ip" else \
-            "%s/%s%s" % (c["cls"], c["kind"], "/with-failing-calls" if any(cl.get("fail") for cl in c["calls"]) else "")
+            "%s%s/%s%s%s" % ("Model:" + c["model"]["feat"] + ">>" if c.get("model") else "", c["cls"], c["kind"],
+                           "/with-failing-calls" if any(cl.get("fail") for cl in c["calls"]) else "",
+                           "/hyper-set-before-first-use" if c.get("preset") else "")
         dist[tag] = dist.get(tag, 0) + 1
         if nontrivial(c, o):
             nt.add(repr(jsonable(c)))
@@ -292,7 +370,9 @@ def correspondence(ctx):
                     "1-3 successive train calls of 1-6 steps (outputs, Wout, bias, P, schedule cursor compared after every call), in about a third "
                     "of them 1-2 RAISING calls (targets forgotten, wrong target / input width) inserted before / between the valid ones "
                     "(model: no update, cursor unchanged; non-constant schedules), "
-                    "LMS alpha scalar or an explicit iterator schedule; IPReservoir tanh/sigmoid, 1-3 units, 1-3 sequences, epochs 1-3, "
+                    "LMS alpha scalar or an explicit iterator schedule; a quarter of them as (Input|clip-Reservoir) >> readout Models trained by 2-4 "
+                    "Model.train calls with learn_every 2-4 and lengths not multiples of it / one-step calls (samples = observed feature states); "
+                    "30% with alpha (RLS, FORCE) or the rate generator (LMS) changed between construction and first use; IPReservoir tanh/sigmoid, 1-3 units, 1-3 sequences, epochs 1-3, "
                     "warmup 0-1 (every reservoir call compared: order, pre-activation state, a, b). non-trivial = at least two "
                     "learning updates and a non-zero learned Wout (readouts) / a changed gain (IP); distinct by scenario text",
             "samples": [keep[0], keep[1], keep[min(3, len(keep) - 1)]],
@@ -335,15 +415,19 @@ def _judge_readout(c):
         o = run_readout(c)
     except Exception as e:
         return _viol("%s:exception" % c["kind"], "valid %s training scenario raises %r" % (c["kind"], e), c)
-    n = c["idim"] + (1 if c["bias"] else 0)
+    ecalls, eidim = eff(c, o)
+    n = eidim + (1 if c["bias"] else 0)
     m = c["odim"]
+    where = "Model.train" if c.get("model") else "train"
+    if c.get("model") and c["model"]["feat"] == "input" and any(ob["feat"] != farr(call["X"]).tolist() for call, ob in zip(c["calls"], o["calls"])):
+        return _viol("model:input-not-forwarded", "the Input node of the model did not hand X to the readout unchanged", c)
     # exact explicit loop with Fractions (w: n x m assembled weights, bias row first)
     w = [[Fraction(0)] * m for _ in range(n)]
     if c["kind"] == "rls":
         A = [[Fraction(c["alpha"]) if i == j else Fraction(0) for j in range(n)] for i in range(n)]
         Bm = [[Fraction(0)] * m for _ in range(n)]
     cur = 0
-    for ci, call in enumerate(c["calls"]):
+    for ci, call in enumerate(ecalls):
         ob = o["calls"][ci]
         if call.get("fail"):
             if ob["raised"] is None:
@@ -406,7 +490,7 @@ def _judge_readout(c):
 
 def _judge_schedule_kind(c):
     """A documented 'iterable' schedule (a plain list) must behave like the iterator over the same values."""
-    if not isinstance(c["alpha"], list):
+    if not isinstance(c["alpha"], list) or c.get("model") or c.get("preset"):
         return None
     try:
         node, _ = make_readout(c, schedule_as="list")
@@ -472,7 +556,94 @@ def _judge_ip(c):
     return None
 
 
+def gen_teacher(rng, i):
+    """Model.train(X, Y=teacher_node) that raises part-way, followed by Model.train(X, Y_array)."""
+    rule = ["lms", "rls"][i % 2]
+    idim, odim = rng.randint(1, 3), rng.randint(1, 2)
+    T0, Tf, T2 = rng.randint(1, 3), rng.randint(2, 4), rng.randint(1, 3)
+    return {"kind": "teacher", "rule": rule, "bias": rng.random() < 0.6, "idim": idim, "odim": odim,
+            "why": "exhausted-schedule" if (rule == "lms" and rng.random() < 0.5) else "node-raises",
+            "fail_at": rng.randint(1, Tf - 1),
+            "alpha": Fraction(1, 2) if rule == "rls" else rng.choice([Fraction(1, 8), Fraction(1, 16)]),
+            "teacher": [Fraction(rng.choice([-5, -3, 3, 5, 7])) for _ in range(odim)],
+            "first": {"X": rows(rng, T0, idim, 2, 2), "Y": rows(rng, T0, odim, 4, 2)},
+            "failing": {"X": rows(rng, Tf, idim, 2, 2)},
+            "after": {"X": rows(rng, T2, idim, 2, 2), "Y": rows(rng, T2, odim, 4, 2)}}
+
+
+def _judge_teacher(c):
+    rpy()
+    from reservoirpy.node import Node
+    from reservoirpy.nodes import LMS, RLS, Input
+    n, m = c["idim"] + (1 if c["bias"] else 0), c["odim"]
+    src = Input(name=uname("tsrc"))
+    armed = {"left": None}
+
+    def fwd(node, x):
+        if armed["left"] is not None:
+            if armed["left"] == 0:
+                raise RuntimeError("C10 probe: node failure in the middle of Model.train")
+            armed["left"] -= 1
+        return x
+
+    def init(node, x=None, **kw):
+        node.set_input_dim(x.shape[1]); node.set_output_dim(x.shape[1])
+    mid = Node(forward=fwd, initializer=init, name=uname("tmid"))
+    T0 = len(c["first"]["X"])
+    if c["rule"] == "lms":
+        nrates = T0 + c["fail_at"] if c["why"] == "exhausted-schedule" else 64
+        ro = LMS(alpha=iter([ff(c["alpha"])] * nrates), input_bias=c["bias"], name=uname("tlms"))
+    else:
+        ro = RLS(alpha=ff(c["alpha"]), input_bias=c["bias"], name=uname("trls"))
+    model = src >> mid >> ro
+    teacher = Input(name=uname("teacher"))
+    teacher(farr([c["teacher"]]))
+    try:
+        model.train(farr(c["first"]["X"]), farr(c["first"]["Y"]))
+        if c["why"] == "node-raises":
+            armed["left"] = c["fail_at"]
+        raised = False
+        try:
+            model.train(farr(c["failing"]["X"]), teacher)
+        except Exception:
+            raised = True
+        armed["left"] = None
+        if not raised:
+            return None
+        if c["rule"] == "lms":
+            ro.set_param("_alpha_gen", iter([ff(c["alpha"])] * 64))
+        W0 = [[Fraction(v) for v in row] for row in (np.r_[ro.bias, ro.Wout] if c["bias"] else np.asarray(ro.Wout)).tolist()]
+        P = [[Fraction(v) for v in row] for row in np.asarray(ro.P).tolist()] if c["rule"] == "rls" else None
+        out = model.train(farr(c["after"]["X"]), farr(c["after"]["Y"]))
+    except Exception as e:
+        return _viol("teacher:exception", "Model.train history with a failing teacher-node call raises %r" % (e,), c)
+    # explicit exact recurrence from the state observed after the failed call, towards the GIVEN targets
+    w = W0
+    al = Fraction(c["alpha"])
+    for i in range(len(c["after"]["X"])):
+        r = aug(c, c["after"]["X"][i])
+        y = [Fraction(v) for v in c["after"]["Y"][i]]
+        pred = [sum(r[a] * w[a][j] for a in range(n)) + (0 if c["bias"] else Fraction(float(np.asarray(ro.bias).ravel()[j]))) for j in range(m)]
+        e = [pred[j] - y[j] for j in range(m)]
+        if c["rule"] == "lms":
+            w = [[w[a][j] - al * e[j] * r[a] for j in range(m)] for a in range(n)]
+        else:
+            k = [sum(P[a][b] * r[b] for b in range(n)) for a in range(n)]
+            g = 1 / (1 + sum(r[a] * k[a] for a in range(n)))
+            P = [[P[a][b] - g * k[a] * k[b] for b in range(n)] for a in range(n)]
+            w = [[w[a][j] - g * k[a] * e[j] for j in range(m)] for a in range(n)]
+    got = (np.r_[ro.bias, ro.Wout] if c["bias"] else np.asarray(ro.Wout)).tolist()
+    exp = [[float(v) for v in row] for row in w]
+    if not close(got, exp):
+        return _viol("model:stale-teacher-after-failed-train", "Model.train(X, Y=teacher node) raised part-way (%s); the next "
+                     "Model.train(X, Y_array) did not update towards the given Y (the online node kept the stale teacher)" % c["why"],
+                     c, exp, got)
+    return None
+
+
 def _judge(c):
+    if c["kind"] == "teacher":
+        return _judge_teacher(c)
     if c["kind"] == "ip":
         return _judge_ip(c)
     v = _judge_readout(c)
@@ -495,6 +666,7 @@ def oracle(ctx, scale=1):
             X = [x for call in c["calls"] if not call.get("fail") for x in call["X"]]
             Y = [y for call in c["calls"] if not call.get("fail") for y in call["Y"]]
             extra.append(dict(c, calls=[{"X": [x], "Y": [y]} for x, y in zip(X, Y)]))
+    extra += [gen_teacher(rng, i) for i in range(ctx.n(16, 120) * scale)]
     out, dist = [], {}
     for c in cases + extra:
         dist[c["kind"]] = dist.get(c["kind"], 0) + 1
@@ -504,7 +676,9 @@ def oracle(ctx, scale=1):
     return {"evaluations": len(cases) + len(extra), "violations": out, "distribution": dist,
             "rule": "exact (Fraction) batch ridge(lambda=alpha) solution and inverse regularised covariance vs RLS Wout/bias/P after every "
                     "train call (and after every single step); explicit exact LMS loop with a counted schedule; a raising train call (targets forgotten, wrong widths) leaves Wout/bias/P and the schedule cursor unchanged and the later updates use the right schedule entries; learn_every gate "
-                    "i%k==0 and pre-update outputs by an explicit loop; explicit numpy IP loop vs IPReservoir.fit (a, b) and y=f(a*x+b)"}
+                    "i%k==0 and pre-update outputs by an explicit loop; explicit numpy IP loop vs IPReservoir.fit (a, b) and y=f(a*x+b); Model-level: (Input|Reservoir)>>readout trained by successive Model.train calls "
+                    "(learn_every>1, lengths not multiples of it, one-step calls) judged like the node on the observed features; alpha / rate generator "
+                    "changed between construction and first use; Model.train with a teacher node failing part-way then trained on an array"}
 
 
 def replay(payload):
